@@ -102,11 +102,21 @@ def run(chk):
     gp = GaussianProcess(kernels.Matern32(jnp.asarray(1.0)), x, diag=jnp.asarray(0.1))
     gp2 = GaussianProcess(kernels.Matern32(jnp.asarray(1.0)), jnp.asarray(rng.normal(size=(4, 2))), diag=jnp.asarray(0.1))
     y = jnp.zeros(4)
+    feat = jnp.asarray(rng.normal(size=(4, 3)))
+    kern3 = kernels.Custom(lambda a, b: jnp.exp(-0.5 * jnp.square(a[0] - b[0])) * (1.0 + a[1] @ b[1]))
+    gp3 = GaussianProcess(kern3, (x, feat), diag=jnp.asarray(0.1))
     table = [
         ("X_test trailing shape", lambda: gp2.condition(y, jnp.zeros((3, 3))), "ValueError"),
         ("X_test rank", lambda: gp2.condition(y, jnp.zeros(3)), "ValueError"),
         ("X_test tree structure", lambda: gp.condition(y, (jnp.zeros(3), jnp.zeros(3))), "ValueError"),
         ("X_test ok", lambda: gp2.condition(y, jnp.zeros((3, 2))).gp.loc, None),
+        # structured inputs with several leaves: ONE mismatching leaf is enough (rank or trailing size, either leaf, also under predict)
+        ("X_test leaf 2 trailing size", lambda: gp3.condition(y, (jnp.zeros(3), jnp.zeros((3, 1)))), "ValueError"),
+        ("X_test leaf 2 rank", lambda: gp3.condition(y, (jnp.zeros(3), jnp.zeros(3))), "ValueError"),
+        ("X_test leaf 1 rank", lambda: gp3.condition(y, (jnp.zeros((3, 1)), jnp.zeros((3, 3)))), "ValueError"),
+        ("X_test leaf 2 wider", lambda: gp3.predict(y, (jnp.zeros(3), jnp.zeros((3, 4)))), "ValueError"),
+        ("X_test both leaves", lambda: gp3.condition(y, (jnp.zeros((3, 2)), jnp.zeros(3))), "ValueError"),
+        ("X_test structured ok", lambda: gp3.condition(y, (jnp.zeros(3), jnp.zeros((3, 3)))).gp.loc, None),
         ("mean rank", lambda: GaussianProcess(kernels.Matern32(jnp.asarray(1.0)), x, diag=jnp.asarray(0.1), mean=lambda t: jnp.stack([t, t])), "ValueError"),
         ("noise diagonal rank 0", lambda: noise.Diagonal(jnp.asarray(0.1)), "ValueError"),
         ("noise diagonal rank 2", lambda: noise.Diagonal(jnp.zeros((2, 2))), "ValueError"),
@@ -139,7 +149,7 @@ def run(chk):
     chk.cov["distinct_nontrivial"] = len(distinct)
     chk.cov["rule"] = (f"every vector of length <= {maxlen} built from 0..n-1 with one adjacent inversion at each position (also a 1e-9 inversion), "
                        "descending, sorted, sorted with ties, all equal, plus random small-integer vectors; each eager, under jit and with assume_sorted; "
-                       "vmap with one unsorted row; structured (time,label) coordinates; 22-row table of the other documented errors; "
+                       "vmap with one unsorted row; structured (time,label) coordinates; 28-row table of the other documented errors (incl. partial leaf mismatches of a structured X_test); "
                        "distinct = different coordinate vectors")
     chk.cov["input_histogram"] = hist
     chk.cov["samples"] = [expect[3][0], expect[-1][0]]
